@@ -49,7 +49,9 @@ def main():
         res["tests_line"] = line
         for name, repo in (("clean", clean), ("patched", mut)):
             os.makedirs(os.path.join(repo, "_out"), exist_ok=True)
-            shutil.copy(demo, os.path.join(repo, "_out", f"{x}.demo.py"))
+            # demos may assert that pycomm3 is imported from the sub-agent's worktree: point that at this copy
+            txt = open(demo).read().replace(f"/tmp/mut/{prop}", repo)
+            open(os.path.join(repo, "_out", f"{x}.demo.py"), "w").write(txt)
             p = subprocess.run(["/venv/bin/python", f"_out/{x}.demo.py"], capture_output=True, text=True, cwd=repo,
                                env=dict(os.environ, PYTHONPATH=repo), timeout=600)
             res[f"demo_{name}_rc"] = p.returncode
